@@ -191,7 +191,7 @@ func unmarshalJSONObject(d decoder, r Rule) (Size, error) {
 	unit := (*string)(nil)
 keys:
 	for i := 0; true; i++ {
-		if i > MaxObjectKeys {
+		if MaxObjectKeys != 0 && i > MaxObjectKeys {
 			return 0, fmt.Errorf("%w: %d > %d", ErrObjectTooBig, i, MaxObjectKeys)
 		}
 		if !d.More() {
